@@ -145,7 +145,7 @@ class C03(DimwiseCheck):
             "answers); after every evaluation every component grid of the current scheme is inspected through the public observation "
             "points and the combined interpolant is compared with an integrand that is arbitrary per point (keyed hash). A state is the "
             "interval/level structure; distinct_nontrivial counts distinct refined structures on which the combination was checked")
-    expected_probes = ["rebalancing", "new_lmax"]
+    expected_probes = ["rebalancing", "new_lmax", "foreign_turn_before_the_queries"]
 
     def gen(self, rk, tier, idx):
         r = stream(rk, "cfg")
@@ -160,7 +160,38 @@ class C03(DimwiseCheck):
         return s
 
     def monitors(self):
-        return [DS.CombinationMonitor()]
+        return [ForeignTurn(), DS.CombinationMonitor()]
+
+
+class ForeignTurn(DS.Monitor):
+    """foreign activity between an evaluation of the object under observation and the queries that inspect it: in a tenth of the
+    runs another dimension-wise object (own box, levels, version) is built and run for a few steps at every evaluation, before
+    the combination monitor asks its questions. The object under observation did not change; what it answers must not either."""
+
+    def on_eval(self, sim):
+        from simcore.seeds import H
+        if H(sim.rk, "foreign_turns") >= 0.1:
+            return
+        r = stream(sim.rk, "foreign_turn%d" % sim.n_eval)
+        fcfg = DS.gen_cfg(r, "quick", dims=(1, 2, 2, 3), focus_p=0.0, cluster_p=0.0)
+        fcfg.update(strategy="dimension_wise", use_epoch=False, clock_jumps=False, max_intervals=10 ** 6, max_points=10 ** 6, estimator="keyed")
+        ctx = sim.ctx
+        saved_sig, saved_cur = getattr(ctx, "exc_sig", None), DS._Obs.cur
+        try:
+            fsim = DS.DimwiseSim(fcfg, sim.rk + "|foreign%d" % sim.n_eval, ctx, [])
+            fsim.eval_cap = 4
+            fsim.build()
+            fsim.perform(tol=-1.0, max_evaluations=r.choice([5, 15, 40]))
+        except (DS.StopRun, Excluded):
+            pass
+        except Exception as e:
+            if getattr(e, "harness", False):
+                raise
+            ctx.probe("foreign_activity_raised")
+        finally:
+            ctx.exc_sig = saved_sig
+            DS._Obs.cur = saved_cur
+        ctx.fault("foreign_activity"); ctx.probe("foreign_turn_before_the_queries")
 
 
 CHECKS = {"C06": C06, "C03": C03}
